@@ -67,7 +67,7 @@ def parse_note(text):
     return letter, pos
 
 
-def syntax_note_obs(ctx, files=None):
+def syntax_note_obs(ctx, files=None, check_range=True):
     for n in all_nodes(ctx, files):
         if n.kind != 'segment':
             continue
@@ -79,7 +79,7 @@ def syntax_note_obs(ctx, files=None):
                 yield Ob(key, False, where(n), 'malformed syntax note: %s' % e)
                 continue
             nchild = len(n.children)
-            if max(pos) > nchild:
+            if check_range and max(pos) > nchild:
                 yield Ob(key, False, where(n), 'note mentions position %d but segment %s has %d elements'
                          % (max(pos), n.id, nchild))
             else:
